@@ -17,7 +17,8 @@ CONSTANTS GRAMS, MESHES, TOLS,   \* as in MC_WignerSeitz
           NCS,                   \* numbers of Cartesian components of the data: subset of {1, 3, 9}
           DATAMODE,              \* "basis": one-hot Hermitian basis and dense data; "dense": dense data only
           NDENSE,                \* number of dense data sets / old systems
-          NoWeights              \* sensitivity: weights 1/Ndegen replaced by 1 (RoundTrip must fail where Ndegen > 1)
+          NoWeights,             \* sensitivity: weights 1/Ndegen replaced by 1 (RoundTrip must fail where Ndegen > 1)
+          SS                     \* denominator of the centres: TauOf is in units of 1/SS (4: the comments of TauOf; 3: thirds)
 VARIABLES gram, mesh, tolid, nw, tauid, phase,
           W,        \* shift -> set of <<R, Ndegen>>          (iRvec_list, Ndegen_list through shift_index)
           amb,      \* some distance lies exactly on the tolerance boundary (excluded: floating point undetermined)
@@ -26,7 +27,6 @@ VARIABLES gram, mesh, tolid, nw, tauid, phase,
           X         \* the resulting real-space matrices
 vars == <<gram, mesh, tolid, nw, tauid, phase, W, amb, ord, nc, dat, X>>
 
-SS == 4
 Digit(x, k) == (x \div IntPow(10, k)) % 10
 GramOf(x) == LET g12 == Digit(x, 2) - 4  g13 == Digit(x, 1) - 4  g23 == Digit(x, 0) - 4
              IN << <<Digit(x, 5), g12, g13>>, <<g12, Digit(x, 4), g23>>, <<g13, g23, Digit(x, 3)>> >>
